@@ -824,6 +824,68 @@ def f34_probe(ctx):
 
 
 # ------------------------------------------------------------------------------------------------
+# scope trees with exactly ONE scope: the variable cotangent mirrors the scope tree
+# ------------------------------------------------------------------------------------------------
+
+
+def check_onescope_tree_case(ctx, case):
+  """`nn.vjp(..., multi_scope=True)` on a module that holds no outside module, and core `lift.vjp` over a one-element
+  list / dict of scopes: the variable cotangent must have the structure of the scope tree ([{…}] / {'m': {…}}), as
+  jax.vjp's cotangent w.r.t. the per-scope variable container has; values, primal and input cotangent equal."""
+  from flax.core import lift as core_lift, apply as core_apply
+
+  w, b, x, ct = F(case['w']), F(case['b']), F(case['x']), F(case['ct'])
+  variables = {'params': {'w': w}, 'consts': {'b': b}}
+  form = case['form']
+  canon = lambda t: (str(jax.tree.structure(t)), [to_int(v) for v in jax.tree.leaves(t)])
+
+  def poly(pw, pb, x):
+    return pw * x * x + pb * x
+
+  if form == 'linen':
+    def call(self, x):
+      fn = lambda m, x: poly(m.get_variable('params', 'w'), m.get_variable('consts', 'b'), x)
+      y, bwd = nn.vjp(fn, self, x, vjp_variables='params', multi_scope=True)
+      g = bwd(ct)
+      return y, g[0], g[1]
+
+    M = make_cls('OneScope', call)
+    got = lp.call(lambda: tuple(canon(t) for t in M().apply(variables, x)))
+    container = lambda p: [p]
+  else:
+    wrap = (lambda sc: [sc]) if form == 'list' else (lambda sc: {'m': sc})
+    pick = (lambda scs: scs[0]) if form == 'list' else (lambda scs: scs['m'])
+
+    def f(scope, x):
+      def inner(scs, x):
+        sc = pick(scs)
+        return poly(sc.get_variable('params', 'w'), sc.get_variable('consts', 'b'), x)
+
+      y, bwd = core_lift.vjp(inner, wrap(scope), x, vjp_variables='params')
+      g = bwd(ct)
+      return y, g[0], g[1]
+
+    got = lp.call(lambda: tuple(canon(t) for t in core_apply(f)(variables, x)))
+    container = (lambda p: [p]) if form == 'list' else (lambda p: {'m': p})
+
+  def ref():
+    y, bwd = jax.vjp(lambda cont, x: poly(jax.tree.leaves(cont)[0], b, x), container({'params': {'w': w}}), x)
+    g = bwd(ct)
+    return y, g[0], g[1]
+
+  want = lp.call(lambda: tuple(canon(t) for t in ref()))
+  ctx.case(case)
+  ctx.count('transform', f'vjp/one-scope-{form}')
+  if got != want:
+    ctx.violation('vjp-scope-tree-structure', f'vjp over a scope tree with one scope ({form}): (primal, variable cotangent, input cotangent) as (tree structure, leaves) {got} vs jax.vjp w.r.t. the mirrored variable container {want} on {json.dumps(case)}', case)
+
+
+def gen_onescope_case(rng):
+  return {'kind': 'onescope', 'form': rng.choice(['linen', 'list', 'dict']), 'w': rng.randrange(-2, 4), 'b': rng.randrange(-2, 4),
+          'x': rng.randrange(-2, 4), 'ct': rng.randrange(1, 4)}
+
+
+# ------------------------------------------------------------------------------------------------
 # mutable state >= 2 scope levels below the lifted scope, used directly before and after the lifted call
 # ------------------------------------------------------------------------------------------------
 
@@ -1080,6 +1142,8 @@ def run_case(ctx, drv, case):
     check_multiscope_case(ctx, case)
   elif case.get('kind') == 'deepstate':
     check_deepstate_case(ctx, case)
+  elif case.get('kind') == 'onescope':
+    check_onescope_tree_case(ctx, case)
   else:
     ctx.notes.append(f'unknown corpus case kind {case.get("kind")}')
 
@@ -1099,7 +1163,7 @@ def run(ctx):
   drv5 = LeanDriver('drv_c05')
   for _ in range(10 * scale):
     c05mod.check_modscopes_case(ctx, drv5, c05mod.gen_modscopes_case(rng))
-  cases = [gen_deepstate_case(rng) for _ in range(14 * scale)] + [gen_multiscope_case(rng) for _ in range(14 * scale)]
+  cases = [dict(gen_onescope_case(rng), form=fm) for fm in ('linen', 'list', 'dict') for _ in range(3 * scale)] + [gen_deepstate_case(rng) for _ in range(14 * scale)] + [gen_multiscope_case(rng) for _ in range(14 * scale)]
   for kind, n in plan:
     for _ in range(n * scale):
       c = gen_case(rng, kind)
